@@ -5,16 +5,23 @@ from ..core import Engine
 from . import executor, judge as J, scen
 
 
+_MARK = None
+
+
 def _strip_numbering(o):
+    """replace run ids, markers and clock readings (whose numbering follows the arbitrary order inside an earlier
+    set-ordered recompute) by '#', structurally"""
     import re
-    s = json.dumps(o)
-    s = re.sub(r'"run": "\d+\.\d+"', '"run": "#"', s)
-    s = re.sub(r'marker \d+\.\d+', 'marker #', s)
-    s = re.sub(r'"marker": "\d+\.\d+"', '"marker": "#"', s)
-    s = re.sub(r'"(started|ended)": (\d+|"[^"]*")', r'"\1": "#"', s)
-    s = re.sub(r'"clock": \[\d+, \d+\]', '"clock": "#"', s)
-    s = re.sub(r'"time": [0-9.e+-]+', '"time": "#"', s)
-    return json.loads(s)
+    global _MARK
+    if _MARK is None:
+        _MARK = re.compile(r'marker \d+\.\d+')
+    if isinstance(o, dict):
+        return {k: ('#' if k in ('run', 'started', 'ended', 'time', 'clock', 'marker') else _strip_numbering(v)) for k, v in o.items()}
+    if isinstance(o, list):
+        return [_strip_numbering(x) for x in o]
+    if isinstance(o, str):
+        return _MARK.sub('marker #', o)
+    return o
 
 
 class StoreEngine(Engine):
